@@ -37,7 +37,7 @@ def tokenize(s):
 # and for unsigned values a != 0 = 0 < a), so that `ensure!(x > 0)`, `if x == 0 { return Err }` and `if !(x > 0) {..}` regenerate
 # to the same Gallina term. Unknown plain identifiers are resolved through a unique, never re-assigned `let` of the same function.
 class P:
-    def __init__(self, toks, env, body=None, depth=0): self.t, self.i, self.env, self.body, self.depth = toks, 0, env, body, depth
+    def __init__(self, toks, env, body=None, depth=0, src=None): self.t, self.i, self.env, self.body, self.depth, self.src = toks, 0, env, body, depth, src
     def peek(self): return self.t[self.i] if self.i < len(self.t) else (None, None)
     def eat(self): x = self.t[self.i]; self.i += 1; return x
     def expr(self): return self.or_()
@@ -88,7 +88,7 @@ class P:
         if len(ms) != 1: return None
         if re.search(r'(?<![\w.])%s\s*(?:[-+*/|&^]=|=(?!=))' % re.escape(v), re.sub(r'\blet\s+(?:mut\s+)?%s\s*=' % re.escape(v), '', self.body)): return None   # re-assigned
         try:
-            q = P(tokenize(ms[0]), self.env, self.body, self.depth + 1); e = q.expr()
+            q = P(tokenize(expand_calls(ms[0], self.src, self.body)), self.env, self.body, self.depth + 1, self.src); e = q.expr()
             return e if q.i == len(q.t) else None
         except Exception:
             return None
@@ -126,8 +126,43 @@ def show(e):
     if k == 'ar':
         t = '(%s %s %s)' % (show(e[2]), e[1], show(e[3]))
         return '(%s %s)' % (WRAP, t) if WRAP else t
-def tr(expr, env, body=None, negate=False):
-    p = P(tokenize(expr), env, body); e = p.expr()
+def split_args(t):
+    out, depth, cur = [], 0, ''
+    for ch in t:
+        if ch in '([{<': depth += 1
+        elif ch in ')]}>': depth -= 1
+        if ch == ',' and depth == 0: out.append(cur); cur = ''
+        else: cur += ch
+    if cur.strip(): out.append(cur)
+    return [x.strip() for x in out]
+def expand_calls(expr, src, body):
+    """replace `Self::f(a..)`, `self.f(a..)`, `f(a..)` by the body of `fn f(p..) -> T { E }` of the same file when that body is a single
+    expression, or by the closure `let f = |p..| E;` of the same function, with the parameters replaced by the arguments"""
+    for _ in range(3):
+        changed = False
+        for m in list(re.finditer(r'(?<![\w.])(?:Self::|self\.)?([a-z_]\w*)\(((?:[^()]|\([^()]*\))*)\)', expr)):
+            name, args = m.group(1), split_args(m.group(2))
+            params, e = None, None
+            md = re.search(r'\bfn\s+%s\s*(?:<[^>]*>)?\s*\(([^)]*)\)\s*(?:->\s*[^{]+)?\{\s*([^{};]+?)\s*\}' % re.escape(name), src or '')
+            if md: params, e = split_args(md.group(1)), md.group(2)
+            else:
+                mc = re.search(r'\blet\s+%s\s*=\s*(?:move\s*)?\|([^|]*)\|\s*([^;{}]+?)\s*;' % re.escape(name), body or '')
+                if mc: params, e = split_args(mc.group(1)), mc.group(2)
+            if e is None: continue
+            params = [q for q in params if not re.match(r'^&?\s*(mut\s+)?self$', q)]
+            pn = [re.sub(r'^(mut\s+)?', '', q.split(':')[0].strip()) for q in params]
+            if len(pn) != len(args): continue
+            for q, a in zip(pn, args):
+                a = re.sub(r'^[&*\s]+(mut\s+)?', '', a)
+                e = re.sub(r'(?<![\w.])%s\b' % re.escape(q), a, e)
+            expr = expr[:m.start()] + '(' + e + ')' + expr[m.end():]
+            changed = True
+            break
+        if not changed: break
+    return expr
+def tr(expr, env, body=None, negate=False, src=None):
+    expr = expand_calls(expr, src, body)
+    p = P(tokenize(expr), env, body, 0, src); e = p.expr()
     if p.i != len(p.t): raise ValueError("trailing tokens in " + expr)
     if negate: e = ('not', e)
     return show(norm(e))
@@ -157,8 +192,8 @@ def inline_calls(src, body, me, depth=0):
         if f == me: return m.group(0)
         b, _ = fn_body(src, f)
         return m.group(0) if b is None else '{ %s }' % b
-    return re.sub(r'\bself\s*\.\s*([A-Za-z_]\w*)\s*\((?:[^()]|\([^()]*\))*\)(?:\s*\.await)?', rep, body)
-def find_site(src, fn, patterns, nth=0, body=None):
+    return re.sub(r'(?<![\w.!])(?:self\s*\.\s*|Self::)?([A-Za-z_]\w*)\s*\((?:[^()]|\((?:[^()]|\([^()]*\))*\))*\)(?:\s*\.await)?', rep, body)
+def find_site(src, fn, patterns, nth=0, body=None, role=None):
     """first pattern (of a list of alternatives) that matches in the body of fn, then in the body with callees inlined"""
     if body is None: body, line = fn_body(src, fn)
     else: line = 0
@@ -167,6 +202,7 @@ def find_site(src, fn, patterns, nth=0, body=None):
     for b in (body, inline_calls(src, body, fn)):
         for pat in patterns:
             ms = list(re.finditer(pat, b, re.S))
+            if role: ms = [m for m in ms if role(block_after(b, m.end(1))) is not None]
             if len(ms) > nth: return ms[nth], b, line
     return None, body, line
 
@@ -180,7 +216,7 @@ def site(name, params, src, fname, fn, pattern, env, pre=None, default=None, wra
     False (the source tests the negation: e.g. an early `return`/`continue` instead of the guarded action), None (unrecognised)"""
     global WRAP
     WRAP = wrap
-    m, body, line = find_site(src, fn, pattern)
+    m, body, line = find_site(src, fn, pattern, role=role)
     text = m.group(1).strip() if m else None
     try:
         if text is None: raise ValueError("site not found")
@@ -190,7 +226,7 @@ def site(name, params, src, fname, fn, pattern, env, pre=None, default=None, wra
             if pol is None: raise ValueError("the branch guarded by `%s` is not recognised" % text)
             neg = not pol
         t2 = pre(text) if pre else text
-        g = tr(t2, env, body, negate=neg)
+        g = tr(t2, env, body, negate=neg, src=src)
         defs.append("(* %s: fn %s (line %d): `%s`%s *)\nDefinition %s %s := %s." % (fname, fn, line, text, ' (negated: guards the early exit)' if neg else '', name, params, g))
         sites.append({'name': name, 'file': fname, 'fn': fn, 'line': line, 'rust': text, 'coq': g, 'changed': g != default})
     except Exception as e:
@@ -201,6 +237,9 @@ def site(name, params, src, fname, fn, pattern, env, pre=None, default=None, wra
 
 # ---- polarity of a guard: what the guarded branch does decides whether the source tests the modelled guard or its negation ----
 def role_exit_pos(blk):      # modelled guard = "leave early": positive when the branch returns/continues at once
+    return True if re.match(r'\s*(return|continue|break)\b', blk) else False
+def role_exit_pos3(blk):     # as role_exit_pos, but an `Err` exit is a different guard (not recognised)
+    if re.match(r'\s*return\s+Err\b', blk): return None
     return True if re.match(r'\s*(return|continue|break)\b', blk) else False
 def role_action(*words):     # modelled guard = "do the action": positive when the branch mentions it, negative when the branch leaves at once
     def f(blk):
@@ -218,12 +257,12 @@ site('g_safety_rule_2',VP,core,'core.rs','make_vote',[r'let\s+mut\s+safety_rule_
 site('g_can_extend',VP,core,'core.rs','make_vote',[r'let\s+mut\s+can_extend\s*=\s*(.*?);', r'let\s+mut\s+\w+\s*=\s*([^;]*\btc\.round[^;]*);'],venv,default='((tc_round + 1) =? b_round)')
 site('g_can_extend_hq',VP,core,'core.rs','make_vote',[r'can_extend\s*&=\s*(.*?);', r'\b\w+\s*&=\s*([^;]*high_qc_rounds[^;]*);'],venv,
      pre=lambda t: re.sub(r'\*?tc\.high_qc_rounds\(\)\.iter\(\)\.max\(\)\.expect\("[^"]*"\)','MAXHQ',t),default='(max_hq <=? b_qc_round)')
-site('g_commit_skip','(b_round : N) (st_round st_hq st_lv st_lc : N) : bool',core,'core.rs','commit',r'if\s+([^{}]*?)\s*\{\s*return\s+Ok',E({'block.round':'b_round'}),default='(b_round <=? st_lc)')
+site('g_commit_skip','(b_round : N) (st_round st_hq st_lv st_lc : N) : bool',core,'core.rs','commit',[r'if\s+([^{}]*?)\s*\{\s*return\s+Ok', r'if\s+([^{};]*?self\.last_committed_round[^{};]*?)\s*\{'],E({'block.round':'b_round'}),default='(b_round <=? st_lc)',role=role_exit_pos3)
 site('g_commit_walk','(lcr p_round : N) : bool',core,'core.rs','commit',r'while\s+(.*?)\s*\{',{'self.last_committed_round':'lcr','parent.round':'p_round'},default='((lcr + 1) <? p_round)')
 site('g_update_high_qc','(q_round : N) (st_round st_hq st_lv st_lc : N) : bool',core,'core.rs','update_high_qc',r'if\s+(.*?)\s*\{',E({'qc.round':'q_round'}),default='(st_hq <? q_round)',role=role_action('self.high_qc'))
-site('g_vote_stale','(m_round : N) (st_round st_hq st_lv st_lc : N) : bool',core,'core.rs','handle_vote',r'if\s+([^{}]*?)\s*\{\s*return\s+Ok',E({'vote.round':'m_round'}),default='(m_round <? st_round)')
-site('g_timeout_stale','(m_round : N) (st_round st_hq st_lv st_lc : N) : bool',core,'core.rs','handle_timeout',r'if\s+([^{}]*?)\s*\{\s*return\s+Ok',E({'timeout.round':'m_round'}),default='(m_round <? st_round)')
-site('g_tc_stale','(m_round : N) (st_round st_hq st_lv st_lc : N) : bool',core,'core.rs','handle_tc',r'if\s+([^{}]*?)\s*\{\s*return\s+Ok',E({'tc.round':'m_round'}),default='(m_round <? st_round)')
+site('g_vote_stale','(m_round : N) (st_round st_hq st_lv st_lc : N) : bool',core,'core.rs','handle_vote',[r'if\s+([^{}]*?)\s*\{\s*return\s+Ok', r'if\s+([^{};]*?\bvote\.round\b[^{};]*?)\s*\{', r'if\s+([a-z_]\w*)\s*\{'],E({'vote.round':'m_round'}),default='(m_round <? st_round)',role=role_exit_pos3)
+site('g_timeout_stale','(m_round : N) (st_round st_hq st_lv st_lc : N) : bool',core,'core.rs','handle_timeout',[r'if\s+([^{}]*?)\s*\{\s*return\s+Ok', r'if\s+([^{};]*?\btimeout\.round\b[^{};]*?)\s*\{', r'if\s+([a-z_]\w*)\s*\{'],E({'timeout.round':'m_round'}),default='(m_round <? st_round)',role=role_exit_pos3)
+site('g_tc_stale','(m_round : N) (st_round st_hq st_lv st_lc : N) : bool',core,'core.rs','handle_tc',[r'if\s+([^{}]*?)\s*\{\s*return\s+Ok', r'if\s+([^{};]*?\btc\.round\b[^{};]*?)\s*\{', r'if\s+([a-z_]\w*)\s*\{'],E({'tc.round':'m_round'}),default='(m_round <? st_round)',role=role_exit_pos3)
 site('g_advance_guard','(r : N) (st_round st_hq st_lv st_lc : N) : bool',core,'core.rs','advance_round',r'if\s+(.*?)\s*\{',E({'round':'r'}),default='(r <? st_round)',role=role_exit_pos)
 site('g_advance_next','(r : N) (st_round st_hq st_lv st_lc : N) : N',core,'core.rs','advance_round',r'self\.round\s*=\s*(.*?);',E({'round':'r'}),default='(r + 1)')
 site('g_two_chain','(b0_round b1_round b_round : N) : bool',core,'core.rs','process_block',r'if\s+([^{}]*?)\s*\{\s*self\.mempool_driver\.cleanup',{'b0.round':'b0_round','b1.round':'b1_round','block.round':'b_round'},default='((b0_round + 1) =? b1_round)')
@@ -252,7 +291,7 @@ def isite(name, params, srcfile, fname, ty, fn, pattern, env, default, pre=None,
     src = srcfile
     ib, iline = impl_body(src, ty)
     fb, line = fn_body(ib, fn) if ib else (None, 0)
-    m, body, _ = find_site(ib or '', fn, pattern, nth, body=fb) if fb else (None, None, 0)
+    m, body, _ = find_site(src, fn, pattern, nth, body=fb, role=role) if fb else (None, None, 0)
     text = m.group(1).strip() if m else None
     try:
         if text is None: raise ValueError("site not found")
@@ -261,7 +300,7 @@ def isite(name, params, srcfile, fname, ty, fn, pattern, env, default, pre=None,
             pol = role(block_after(body, m.end(1)))
             if pol is None: raise ValueError("the branch guarded by `%s` is not recognised" % text)
             neg = not pol
-        g = tr(pre(text) if pre else text, env, body, negate=neg)
+        g = tr(pre(text) if pre else text, env, body, negate=neg, src=src)
         defs.append("(* %s: impl %s, fn %s (line %d): `%s`%s *)\nDefinition %s %s := %s." % (fname, ty, fn, iline + line - 1, text, ' (negated: guards the early exit)' if neg else '', name, params, g))
         sites.append({'name': name, 'file': fname, 'fn': '%s::%s' % (ty, fn), 'line': iline + line - 1, 'rust': text, 'coq': g, 'changed': g != default})
     except Exception as e:
@@ -286,13 +325,13 @@ isite('g_qcm_threshold', '(weight quorum : N) : bool', aggr, 'aggregator.rs', 'Q
 isite('g_qcm_reset', ': N', aggr, 'aggregator.rs', 'QCMaker', 'append', r'self\.weight\s*=\s*([^;]*?);', {}, '0')
 isite('g_tcm_threshold', '(weight quorum : N) : bool', aggr, 'aggregator.rs', 'TCMaker', 'append', r'if\s+(self\.weight[^{]*?)\s*\{', {'self.weight': 'weight', 'QUORUM': 'quorum'}, '(quorum <=? weight)', pre=QT, role=role_action('self.weight =', 'Some('))
 isite('g_tcm_reset', ': N', aggr, 'aggregator.rs', 'TCMaker', 'append', r'self\.weight\s*=\s*([^;]*?);', {}, '0')
-isite('g_agg_keep_votes', '(k round : N) : bool', aggr, 'aggregator.rs', 'Aggregator', 'cleanup', r'self\.votes_aggregators\.retain\(\s*\|[^|]*\|\s*([^)]*?)\s*\)', {'k': 'k', 'round': 'round'}, '(round <=? k)')
-isite('g_agg_keep_timeouts', '(k round : N) : bool', aggr, 'aggregator.rs', 'Aggregator', 'cleanup', r'self\.timeouts_aggregators\.retain\(\s*\|[^|]*\|\s*([^)]*?)\s*\)', {'k': 'k', 'round': 'round'}, '(round <=? k)')
+isite('g_agg_keep_votes', '(k round : N) : bool', aggr, 'aggregator.rs', 'Aggregator', 'cleanup', r'self\.votes_aggregators\.retain\(\s*\|[^|]*\|\s*((?:[^()]|\([^()]*\))*?)\s*\)', {'k': 'k', 'round': 'round'}, '(round <=? k)')
+isite('g_agg_keep_timeouts', '(k round : N) : bool', aggr, 'aggregator.rs', 'Aggregator', 'cleanup', r'self\.timeouts_aggregators\.retain\(\s*\|[^|]*\|\s*((?:[^()]|\([^()]*\))*?)\s*\)', {'k': 'k', 'round': 'round'}, '(round <=? k)')
 isite('g_leader_index', '(round size : N) : N', lead, 'leader.rs', 'RRLeaderElector', 'get_leader', r'keys\[\s*(.*?)\s*\]', {'round': 'round', 'SIZE': 'size', 'keys.len()': 'size', 'self.committee.authorities.len()': 'size'}, '(round mod size)', pre=lambda t: t.replace('self.committee.size()', 'SIZE'))
 _qwacc = re.search(r'let\s+mut\s+(\w+)\s*=\s*self\.stake\s*;', qwsrc)
 _qwacc = _qwacc.group(1) if _qwacc else 'total_stake'
 isite('g_qw_threshold', '(total quorum : N) : bool', qwsrc, 'quorum_waiter.rs', 'QuorumWaiter', 'run', r'if\s+([^{};]*quorum_threshold\(\)[^{};]*?)\s*\{', {_qwacc: 'total', 'QUORUM': 'quorum'}, '(quorum <=? total)', pre=lambda t: t.replace('self.committee.quorum_threshold()', 'QUORUM'), role=role_action('tx_batch', '.send('))
-isite('g_batch_full', '(size batch_size : N) : bool', bmsrc, 'batch_maker.rs', 'BatchMaker', 'run', r'if\s+(self\.current_batch_size[^{]*?)\s*\{', {'self.current_batch_size': 'size', 'self.batch_size': 'batch_size'}, '(batch_size <=? size)', role=role_action('seal'))
+isite('g_batch_full', '(size batch_size : N) : bool', bmsrc, 'batch_maker.rs', 'BatchMaker', 'run', [r'if\s+(self\.current_batch_size[^{]*?)\s*\{', r'if\s+(!?\s*[a-z_]\w*)\s*\{'], {'self.current_batch_size': 'size', 'self.batch_size': 'batch_size'}, '(batch_size <=? size)', role=role_action('seal'))
 isite('g_timer_seals', '(is_empty : bool) (size batch_size : N) : bool', bmsrc, 'batch_maker.rs', 'BatchMaker', 'run', r'\(\)\s*=\s*&mut\s+timer\s*=>\s*\{\s*if\s+([^{}]*?)\s*\{', {'EMPTY': 'is_empty', 'self.current_batch_size': 'size', 'self.batch_size': 'batch_size'}, '(negb is_empty)', pre=lambda t: t.replace('self.current_batch.is_empty()', 'EMPTY'), role=role_action('seal'))
 # seal(): is the length test evaluated before the index `tx[0]` (benchmark build)? `a && b` evaluates a first
 _sb, _sl = fn_body(bmsrc, 'seal')
@@ -397,9 +436,9 @@ except Exception as e:
 
 # ---- mempool synchronizer: garbage-collection and retry tests ----
 msync_src = norm_src(open(REPO + '/mempool/src/synchronizer.rs').read())
-isite('g_ms_gc_skip', '(round gc_depth : N) : bool', msync_src, 'mempool/synchronizer.rs', 'Synchronizer', 'run', r'if\s+(self\.round[^{}]*?self\.gc_depth[^{}]*?)\s*\{\s*continue', {'self.round': 'round', 'self.gc_depth': 'gc_depth'}, '(round <? gc_depth)')
+isite('g_ms_gc_skip', '(round gc_depth : N) : bool', msync_src, 'mempool/synchronizer.rs', 'Synchronizer', 'run', [r'if\s+(self\.round[^{}]*?self\.gc_depth[^{}]*?)\s*\{\s*continue', r'if\s+(self\.round[^{};]*?self\.gc_depth[^{};]*?)\s*\{'], {'self.round': 'round', 'self.gc_depth': 'gc_depth'}, '(round <? gc_depth)', role=role_exit_pos3)
 isite('g_ms_gc_round', '(round gc_depth : N) : N', msync_src, 'mempool/synchronizer.rs', 'Synchronizer', 'run', r'let\s+(?:mut\s+)?gc_round\s*=\s*([^;]*?);', {'self.round': 'round', 'self.gc_depth': 'gc_depth'}, '(round - gc_depth)')
-isite('g_ms_gc_keep', '(r gc_round : N) : bool', msync_src, 'mempool/synchronizer.rs', 'Synchronizer', 'run', r'self\.pending\.retain\(\s*\|[^|]*\|\s*([^)]*?)\s*\)', {'r': 'r', 'gc_round': 'gc_round'}, '(gc_round <? r)', pre=lambda t: t.replace('&mut ', '').replace('&', ''))
+isite('g_ms_gc_keep', '(r gc_round : N) : bool', msync_src, 'mempool/synchronizer.rs', 'Synchronizer', 'run', r'self\.pending\.retain\(\s*\|[^|]*\|\s*((?:[^()]|\([^()]*\))*?)\s*\)', {'r': 'r', 'gc_round': 'gc_round'}, '(gc_round <? r)', pre=lambda t: t.replace('&mut ', '').replace('&', ''))
 isite('g_ms_retry_due', '(timestamp delay now : N) : bool', msync_src, 'mempool/synchronizer.rs', 'Synchronizer', 'run', r'if\s+(timestamp[^{}]*?)\s*\{', {'timestamp': 'timestamp', 'DELAY': 'delay', 'now': 'now'}, '((timestamp + delay) <? now)', pre=lambda t: t.replace('(self.sync_retry_delay as u128)', 'DELAY').replace('self.sync_retry_delay as u128', 'DELAY'))
 
 
@@ -431,16 +470,19 @@ def flag(name, fn, pattern, mapping, default, what):
         untied.append((name, "site not found"))
         defs.append("(* UNTIED %s: site not found *)\nDefinition %s : bool := %s." % (name, name, default))
         sites.append({'name': name, 'file': 'core.rs', 'fn': fn, 'line': line, 'rust': None, 'coq': default, 'untied': 'site not found'})
-flag('g_commit_anc_front', 'commit', r'to_commit\.push_(front|back)\(\s*ancestor\.clone\(\)\s*\)', {'front': 'true', 'back': 'false'}, 'true', 'ancestors are pushed at this end')
-flag('g_commit_head_front', 'commit', r'to_commit\.push_(front|back)\(\s*block\.clone\(\)\s*\)', {'front': 'true', 'back': 'false'}, 'false', 'the head is pushed at this end')
-flag('g_commit_pop_back', 'commit', r'to_commit\.pop_(front|back)\(\s*\)', {'front': 'false', 'back': 'true'}, 'false', 'delivery drains from this end')
+_cb, _ = fn_body(core, 'commit')
+_dq = re.search(r'\blet\s+mut\s+(\w+)\s*=\s*VecDeque::new\(\)', _cb or '')
+DQ = re.escape(_dq.group(1)) if _dq else 'to_commit'
+flag('g_commit_anc_front', 'commit', DQ + r'\.push_(front|back)\(\s*ancestor\.clone\(\)\s*\)', {'front': 'true', 'back': 'false'}, 'true', 'ancestors are pushed at this end')
+flag('g_commit_head_front', 'commit', DQ + r'\.push_(front|back)\(\s*block\.clone\(\)\s*\)', {'front': 'true', 'back': 'false'}, 'false', 'the head is pushed at this end')
+flag('g_commit_pop_back', 'commit', [DQ + r'\.pop_(front|back)\(\s*\)', r'for\s+\w+\s+in\s+' + DQ + r'(?:\.into_iter\(\)|\.drain\(\s*\.\.\s*\))?(\.rev\(\))?\s*\{'], {'front': 'false', 'back': 'true', None: 'false', '.rev()': 'true'}, 'false', 'delivery drains from this end')
 # head pushed before the walk?
 _b, _l = fn_body(core, 'commit')
-_mh = re.search(r'to_commit\.push_(?:front|back)\(\s*block\.clone\(\)\s*\)', _b or '')
+_mh = re.search(DQ + r'\.push_(?:front|back)\(\s*block\.clone\(\)\s*\)', _b or '')
 _mw = re.search(r'\bwhile\b', _b or '')
 if _b and not (_mh and _mw):
     _b = inline_calls(core, _b, 'commit')
-    _mh = re.search(r'to_commit\.push_(?:front|back)\(\s*block\.clone\(\)\s*\)', _b)
+    _mh = re.search(DQ + r'\.push_(?:front|back)\(\s*block\.clone\(\)\s*\)', _b)
     _mw = re.search(r'\bwhile\b', _b)
 if _mh and _mw:
     v = 'true' if _mh.start() < _mw.start() else 'false'
@@ -462,7 +504,9 @@ site('g_quorum_mempool_u32','(total : N) : N',mcfg,'mempool/config.rs','quorum_t
 hdr = "(* GENERATED by regen.py from %s -- do not edit *)\nFrom Coq Require Import List NArith Bool.\nImport ListNotations.\nOpen Scope N_scope.\nDefinition u32 (x : N) : N := x mod 4294967296.\n\n" % REPO
 new = hdr + "\n".join(defs) + "\n"
 old = open(OUT).read() if os.path.exists(OUT) else None
-if new != old: open(OUT,'w').write(new)
+# comments carry source line numbers: when only they differ the file is left alone (no needless rebuild of every proof)
+_defs_only = lambda t: [l for l in (t or '').split('\n') if not l.startswith('(*')]
+if old is None or _defs_only(new) != _defs_only(old): open(OUT,'w').write(new)
 # ---- panic inventory: every panic-capable operation in non-test code, keyed by file, enclosing fn and normalised text ----
 import glob
 def panic_inventory():
@@ -492,7 +536,7 @@ def panic_inventory():
                 mi = re.search(r'([A-Za-z_]\w*)$', t[:m.start()+1]); mr = re.match(r'^\s*(\d*)\s*(\.\.=?)?\s*(\d*)\s*$', m.group(1))
                 if mi and re.match(r'^\s*[A-Za-z_]\w*\s*$', m.group(1)):
                     # `A[i]` with `let i = <e> % A.len();`: in range whenever A is non-empty (the same precondition as the `%` itself)
-                    if re.search(r'\blet\s+%s\s*(?::[^=;]*)?=\s*[^;]*%%\s*%s\.len\(\)\s*;' % (re.escape(m.group(1).strip()), re.escape(mi.group(1))), src): continue
+                    if re.search(r'\blet\s+%s\s*(?::[^=;]*)?=\s*[^;]*%%\s*%s\.len\(\)(?:\s+as\s+\w+)?\s*\)?(?:\s+as\s+\w+)?\s*;' % (re.escape(m.group(1).strip()), re.escape(mi.group(1))), src): continue
                 if mi and mr:
                     md = re.search(r'\blet\s+(?:mut\s+)?%s\s*(?::[^=;]*)?=\s*\[[^;\]]*;\s*(\d+)\s*\]\s*;' % re.escape(mi.group(1)), src)
                     if md:
@@ -562,5 +606,5 @@ def anchors():
             while key in out: key = '%s::%s#%d' % (rel, name, n); n += 1
             out[key] = hashlib.sha1(body.encode()).hexdigest()[:16]
     return out
-if STATUS: json.dump({'sites': sites, 'untied': untied, 'rewritten': new != old, 'panic_inventory': panic_inventory(), 'anchors': anchors()}, open(STATUS,'w'), indent=1)
+if STATUS: json.dump({'sites': sites, 'untied': untied, 'rewritten': old is None or _defs_only(new) != _defs_only(old), 'panic_inventory': panic_inventory(), 'anchors': anchors()}, open(STATUS,'w'), indent=1)
 print("sites=%d untied=%s" % (len(defs), untied))
